@@ -468,6 +468,17 @@ def main(argv: list[str] | None = None) -> int:
             herr = o.harness_error
         if o.failure and failure is None:
             failure = o.failure
+    # coverage-guided tier (atheris), thorough only, for modules that ask for it
+    fz = budget.get("fuzz")
+    fuzz_violation_lines: list[str] = []
+    if failure is None and herr is None and fz and os.environ.get("VERIF_NO_FUZZ") != "1":
+        frc, finfo, flines = run_fuzz_tier(prop_id, seed, int(fz.get("procs", 4)), int(fz.get("runs", 20000)))
+        total.extra["fuzz"] = finfo
+        if frc == 1:
+            fuzz_violation_lines = flines
+        elif frc == 2:
+            herr = "fuzz tier: " + " | ".join(flines)[-800:]
+
     wall = time.time() - t0
 
     # aggregate (cross-case) checks
@@ -520,11 +531,63 @@ def main(argv: list[str] | None = None) -> int:
         print(f"violation detail: {v.signature} :: {v.detail[:600]}")
         print(f"VIOLATION property={prop_id} replay={path}")
         return 1
+    if fuzz_violation_lines:
+        for line in fuzz_violation_lines:
+            print(line)
+        return 1
     print(
         f"OK property={prop_id} tier={a.tier} seed={seed} evaluations={total.evaluations} "
         f"distinct_nontrivial={len(total.nontrivial_hashes)} wall={wall:.1f}s evidence={evp}"
     )
     return 0
+
+
+def run_fuzz_tier(prop_id: str, seed: int, procs: int, runs: int) -> tuple[int, dict, list[str]]:
+    """Run `procs` atheris processes (vf/fuzz.py) with derived seeds; returns (rc, merged info, output lines)."""
+    import shutil
+    import subprocess
+    import tempfile
+
+    base = tempfile.mkdtemp(prefix=f"fuzz-{prop_id}-", dir=os.path.join(OUT))
+    env = dict(os.environ)
+    env["PYTHONPATH"] = os.pathsep.join([ROOT, os.path.join(ROOT, ".deps")] + ([env["PYTHONPATH"]] if env.get("PYTHONPATH") else []))
+    ps = []
+    try:
+        for i in range(procs):
+            out = os.path.join(base, str(i))
+            ps.append((out, subprocess.Popen(
+                [sys.executable, "-m", "vf.fuzz", prop_id, "--runs", str(runs), "--seed", str(shard_seed(seed, 1000 + i) % (2**31 - 1) + 1), "--out", out],
+                cwd=ROOT, env=env, stdout=subprocess.PIPE, stderr=subprocess.STDOUT, text=True)))
+        info = {"engine": "atheris (libFuzzer) over the module's Hypothesis strategy via fuzz_one_input", "processes": procs, "runs_per_process": runs,
+                "runs": 0, "evaluations": 0, "distinct_cases": 0, "distinct_nontrivial": 0, "corpus_files": 0, "status": "ok"}
+        rc, lines = 0, []
+        for out, p_ in ps:
+            text, _ = p_.communicate()
+            try:
+                with open(os.path.join(out, "fuzz-stats.json")) as f:
+                    st_ = json.load(f)
+                for k in ("runs", "evaluations", "distinct_cases", "distinct_nontrivial"):
+                    info[k] += st_.get(k, 0)
+                if st_.get("sample") and "sample" not in info:
+                    info["sample"] = st_["sample"]
+            except (OSError, ValueError):
+                pass
+            try:
+                info["corpus_files"] += len(os.listdir(os.path.join(out, "corpus")))
+            except OSError:
+                pass
+            if p_.returncode == 3:
+                info["status"] = "unavailable (atheris not importable); tier skipped"
+            elif p_.returncode == 1:
+                rc = 1
+                lines += [l for l in text.splitlines() if l.startswith(("violation detail:", "VIOLATION "))]
+            elif p_.returncode not in (0, None):
+                if rc == 0:
+                    rc = 2
+                lines.append(text[-600:])
+        return rc, info, lines
+    finally:
+        shutil.rmtree(base, ignore_errors=True)
 
 
 def replay(mod, path: str) -> int:
